@@ -127,27 +127,27 @@ theorem exitFarm_backed {s s' : St} {farm f x farming : Nat} {rew : Option LkTok
   obtain ⟨_, _, ⟨s1, t⟩, h1, h⟩ := h
   have hb1 := takeF_backed hb h1
   dsimp only at h
-  have hb2 : Backed (learnOpt (if farmIsBase farm = true then { s1 with burnB := s1.burnB + farming }
-      else { s1 with lp := s1.lp + farming }) rew) := by
-    apply learnOpt_backed
+  have hb2 : Backed (if farmIsBase farm = true then { s1 with burnB := s1.burnB + farming }
+      else { s1 with lp := s1.lp + farming }) := by
     split
     · exact Backed.congr (s := s1) rfl rfl rfl rfl hb1
     · exact Backed.congr (s := s1) rfl rfl rfl rfl hb1
   split at h
   · split at h
     · simp only [Option.some.injEq, Prod.mk.injEq] at h
-      obtain ⟨rfl, _⟩ := h; exact hb2
+      obtain ⟨rfl, _⟩ := h; exact learnOpt_backed rew hb2
     · simp only [Option.some.injEq, Prod.mk.injEq] at h
-      obtain ⟨rfl, _⟩ := h; exact hb2
+      obtain ⟨rfl, _⟩ := h; exact learnOpt_backed rew hb2
   · simp only [Option.bind_eq_bind, Option.bind_eq_some_iff, sub?_eq_some] at h
     obtain ⟨remaining, _, h⟩ := h
     split at h
     · simp only [Option.some.injEq, Prod.mk.injEq] at h
       obtain ⟨rfl, _⟩ := h
-      exact burnLocked_backed _ _ hb2
+      exact learnOpt_backed rew (burnLocked_backed _ _ hb2)
     · simp only [Option.bind_eq_bind, Option.bind_eq_some_iff, sub?_eq_some, Option.pure_def,
         Option.some.injEq, Prod.mk.injEq] at h
       obtain ⟨rw, _, qN, _, extra, _, rfl, _⟩ := h
+      apply learnOpt_backed
       apply newW_backed
       split
       · exact hb2
